@@ -3,9 +3,11 @@ package scen
 import (
 	"bufio"
 	"bytes"
+	"errors"
 	"fmt"
 	"io"
 
+	json "github.com/go-json-experiment/json"
 	"github.com/go-json-experiment/json/jsontext"
 
 	"verifsim/core"
@@ -684,6 +686,34 @@ func (sc *Dec) runEpisode(ep *DecEpisode, dp **jsontext.Decoder, env *Env, epIdx
 				useRef = false // after the first error the model no longer tracks the calls
 			}
 		}
+	}
+
+	// C01, the slice entry points (pure functions of the bytes; checked on the
+	// same inputs): IsValid and Unmarshal into any succeed iff the bytes are
+	// exactly one valid text.
+	if ref != nil && !ref.Ambiguous && (sc.Mode == "c01" || env.Prop == "C01") && epIdx < 100 {
+		one := ref.Status == refjson.Complete && len(ref.Values) == 1
+		if got := jsontext.Value(in).IsValid(decOpts(ep)...); got != one {
+			if report("C01", "C01/isvalid-verdict", "IsValid", "IsValid=%v but the reference says exactly-one-valid-text=%v (status=%d values=%d E=%d) input=%s", got, one, ref.Status, len(ref.Values), ref.E, clip(in, 160)) {
+				return
+			}
+		}
+		if ref.MaxDepthSeen < 5000 {
+			var x any
+			err := json.Unmarshal(in, &x, jsontext.AllowInvalidUTF8(ep.AllowUTF8), jsontext.AllowDuplicateNames(ep.AllowDup))
+			overflow := false
+			if one && err != nil {
+				// the only admissible reason is a number that overflows float64
+				var se *json.SemanticError
+				overflow = errors.As(err, &se)
+			}
+			if (err == nil) != one && !overflow {
+				if report("C01", "C01/unmarshal-any-verdict", "Unmarshal", "Unmarshal into any: err=%v but exactly-one-valid-text=%v input=%s", classify(err), one, clip(in, 160)) {
+					return
+				}
+			}
+		}
+		st.Probe("c01/slice-entry-points-checked")
 	}
 
 	// C01 verdict for pure loops: the loop must end, and end in io.EOF iff the
